@@ -54,10 +54,11 @@ def def_source(k, ir, method=False, nested=False):
     return src
 
 
+# (assignments whose target is not a bare name are part of ordinary modules: an attribute, a subscript, a tuple)
 OTHER = {
-    "argparse_function": "import os\n\nUNRELATED = 1\n\n\ndef helper(argument_parser):\n    return argument_parser\n",
-    "class": "UNRELATED = 2\n\n\nclass Other(object):\n    x: int = 1\n",
-    "function": "UNRELATED = 3\n\n\ndef other(a, b=1):\n    return a\n",
+    "argparse_function": "import os\n\nUNRELATED = 1\nos.environ['DOCTRANS_X'] = '3'\n\n\ndef helper(argument_parser):\n    return argument_parser\n",
+    "class": "UNRELATED = 2\nMAJOR, MINOR = 1, 2\n\n\nclass Other(object):\n    x: int = 1\n\n\nOther.x = 5\n",
+    "function": "UNRELATED = 3\nTABLE = {}\nTABLE['k'] = 1\n\n\ndef other(a, b=1):\n    return a\n",
 }
 OTHER_METHOD = "class %s(object):\n    marker_attr = 1\n\n    def other(self, a, b=1):\n        return a\n" % HOLDER
 
